@@ -494,7 +494,10 @@ paf24_read_block (SF_PRIVATE *psf, PAF24_PRIVATE *ppaf24)
 
 	/* Read the block. */
 	if ((k = (int) psf_fread (ppaf24->block, 1, ppaf24->blocksize, psf)) != ppaf24->blocksize)
-		psf_log_printf (psf, "*** Warning : short read (%d != %d).\n", k, ppaf24->blocksize) ;
+	{	psf_log_printf (psf, "*** Warning : short read (%d != %d).\n", k, ppaf24->blocksize) ;
+		/* Do not decode what an earlier block left in the buffer. */
+		memset (((unsigned char *) ppaf24->block) + k, 0, ppaf24->blocksize - k) ;
+		} ;
 
 	/* Do endian swapping if necessary. */
 	if ((CPU_IS_BIG_ENDIAN && psf->endian == SF_ENDIAN_LITTLE) || (CPU_IS_LITTLE_ENDIAN && psf->endian == SF_ENDIAN_BIG))
